@@ -9,6 +9,7 @@ import contextlib
 import copy
 import itertools
 import logging
+import os
 
 import numpy as np
 
@@ -358,6 +359,77 @@ def run_vi(p, col):
 
 
 # ------------------------------------------------------------------ cross-call oracles
+# ------------------------------------------------------------------ the schedule through the command line
+def run_cli_schedule(col):
+    """train_model --n-burnin b --thin t --n-samples n on an observed and on a wholly unobserved screen: the real model is
+    stepped exactly b + n*t times and its state is taken after steps b+t, ..., b+n*t (class-level counting wrapper around
+    SparseDrugCombo.step / get_model_state / reset_model, removed afterwards)."""
+    import shutil
+    from batchie.models import sparse_combo as SCM
+    from ..cli import run_cli
+
+    rows_obs = [("s0", "p0", (("a", 1.0), ("b", 1.0)), 0.5, True), ("s1", "p1", (("a", 1.0), ("c", 2.0)), 0.25, True),
+                ("s0", "p2", (("b", 1.0), ("c", 2.0)), 0.75, False)]
+    rows_un = [(r[0], r[1], r[2], r[3], False) for r in rows_obs]
+    tmp = env.scratch_dir("c17cli")
+    log = []
+    saved = {n: getattr(SCM.SparseDrugCombo, n) for n in ("step", "get_model_state", "reset_model")}
+
+    def wrap(name):
+        real = saved[name]
+
+        def w(self, *a, **k):
+            log.append(name)
+            return real(self, *a, **k)
+        return w
+
+    try:
+        for n in saved:
+            setattr(SCM.SparseDrugCombo, n, wrap(n))
+        for label, rows in (("observed", rows_obs), ("nothing observed", rows_un)):
+            data = os.path.join(tmp, f"{label[:3]}.h5")
+            make_screen(rows).save_h5(data)
+            for (b, t, n) in ((7, 2, 3), (0, 1, 1), (3, 1, 2), (1, 3, 1)):
+                del log[:]
+                case = {"kind": "cli-schedule", "screen": label, "b": b, "t": t, "n": n}
+                col.evaluations += 1
+                col.states += 1
+                col.transitions += 1
+                out = os.path.join(tmp, "thetas.h5")
+                try:
+                    run_cli("train_model", ["--data", data, "--output", out, "--model", "SparseDrugCombo", "--model-param", "n_embedding_dimensions=2",
+                                            "--n-samples", n, "--n-burnin", b, "--thin", t, "--seed", 3])
+                except BaseException as exc:  # noqa: BLE001
+                    col.violation("C17|cli|raised", f"train_model on a screen with {label}, b={b} t={t} n={n}: {short_exc(exc)}", case)
+                    continue
+                steps = 0
+                taken = []
+                reset_before_first_step = False
+                for ev in log:
+                    if ev == "reset_model" and steps == 0:
+                        reset_before_first_step = True
+                    elif ev == "reset_model":
+                        steps = 0
+                        taken = []
+                    elif ev == "step":
+                        steps += 1
+                    elif ev == "get_model_state":
+                        taken.append(steps)
+                want = [b + j * t for j in range(1, n + 1)]
+                col.outcome("cli-schedule", label, b, t, n, tuple(taken))
+                col.nontriv("cli-schedule", label, b, t, n)
+                if steps != b + n * t:
+                    col.violation("C17|cli|total-steps", f"train_model --n-burnin {b} --thin {t} --n-samples {n} on a screen with {label}: the model was stepped {steps} times, expected {b + n * t}", case)
+                elif taken != want:
+                    col.violation("C17|cli|recorded-at-wrong-steps", f"train_model b={b} t={t} n={n} ({label}): states taken after steps {taken}, expected {want}", case)
+                if not reset_before_first_step:
+                    col.violation("C17|cli|not-reset", f"train_model b={b} t={t} n={n} ({label}): the model was not reset before its first step", case)
+    finally:
+        for n, f in saved.items():
+            setattr(SCM.SparseDrugCombo, n, f)
+        shutil.rmtree(tmp, ignore_errors=True)
+
+
 def _judge_same(col, ref, ref_p, out, p):
     if out is None or ref is None:
         return
@@ -392,11 +464,15 @@ def plan(tier, seed):
     b = BOUNDS[tier]
     items = [{"kind": "mcmc", "seed": s} for s in b["seeds"]]
     items.append({"kind": "vi", "seeds": b["seeds"]})
+    items.append({"kind": "cli-schedule"})
     return items
 
 
 def run_item(item, col, tier):
     B = BOUNDS[tier]
+    if item["kind"] == "cli-schedule":
+        run_cli_schedule(col)
+        return
     if item["kind"] == "vi":
         for seed in item["seeds"]:
             # the small range completely, plus counts around powers of two and typical chunk sizes (a 'bounded memory'
@@ -411,7 +487,9 @@ def run_item(item, col, tier):
     # schedules far outside the small grid (the CLI defaults 1000/10/100, counts around 256, large thinning):
     # a special-cased fast path only shows there
     if item.get("large", True):
-        for (b, t, n) in [(1000, 10, 100), (0, 1, 300), (7, 3, 257), (256, 256, 2), (255, 1, 513), (3, 100, 3)]:
+        for (b, t, n) in [(1000, 10, 100), (0, 1, 300), (7, 3, 257), (256, 256, 2), (255, 1, 513), (3, 100, 3),
+                          # more than 1000 / 4096 sampling iterations with thinnings that divide neither
+                          (4, 3, 400), (0, 7, 500), (2, 1500, 2), (5, 999, 3), (1, 7, 700), (0, 4097, 1)]:
             run_mcmc_stub({"model": "stub", "seed": seed, "n_chains": 2, "index": 1, "b": b, "t": t, "n": n}, col)
     sampled = False
     for c in range(B["n_chains"][0], B["n_chains"][1] + 1):
@@ -453,6 +531,9 @@ def run_item(item, col, tier):
 
 def replay(case, col):
     kind = case.get("kind")
+    if kind == "cli-schedule":
+        run_cli_schedule(col)
+        return
     if kind == "vi":
         run_vi({k_: case[k_] for k_ in ("seed", "n", "n_chains", "index", "b", "t")}, col)
     elif kind in ("mcmc-stub", "mcmc-sparse"):
